@@ -31,6 +31,8 @@ pub struct CustomProg {
     pub input_types: Vec<Type>,
     /// (operation family, parameter description)
     pub ops: Vec<(String, String)>,
+    /// operation family per component of the main graph's output tuple
+    pub out_families: Vec<String>,
     pub hash: u64,
 }
 
@@ -263,6 +265,7 @@ pub fn gen_custom(rng: &mut Rng, probe: Option<&str>) -> Option<CustomProg> {
         let g = ctx.create_graph()?;
         let (mut p, ins) = pools(&g, n)?;
         let mut outs: Vec<Node> = vec![];
+        let mut out_families: Vec<String> = vec![];
         match probe {
             Some(fam) => {
                 // two different parameterisations, then the first one again (cache hit)
@@ -270,6 +273,7 @@ pub fn gen_custom(rng: &mut Rng, probe: Option<&str>) -> Option<CustomProg> {
                     let (node, d) = add_op(&g, &mut p, rng, fam, Some(sel))?;
                     ops.push((fam.to_string(), d));
                     outs.push(node);
+                    out_families.push(fam.to_string());
                 }
             }
             None => {
@@ -279,19 +283,23 @@ pub fn gen_custom(rng: &mut Rng, probe: Option<&str>) -> Option<CustomProg> {
                     let (node, d) = add_op(&g, &mut p, rng, fam, None)?;
                     ops.push((fam.to_string(), d));
                     outs.push(node);
+                    out_families.push(fam.to_string());
                     if rng.chance(1, 3) {
                         // the same family again with other parameters on the same argument types
                         let (node, d) = add_op(&g, &mut p, rng, fam, None)?;
                         ops.push((fam.to_string(), d));
                         outs.push(node);
+                        out_families.push(fam.to_string());
                     }
                 }
             }
         }
         if let Some(cg) = &callee {
             outs.push(g.call(cg.clone(), ins.clone())?);
+            out_families.push("nested-call".to_string());
         }
         if let Some(bg) = &iter_body {
+            out_families.push("nested-iterate".to_string());
             let v = g.create_vector(array_type(vec![n, 8], BIT), vec![ins[1].clone(), ins[0].clone(), ins[1].clone()])?;
             outs.push(g.iterate(bg.clone(), ins[0].clone(), v)?);
         }
@@ -300,7 +308,7 @@ pub fn gen_custom(rng: &mut Rng, probe: Option<&str>) -> Option<CustomProg> {
         g.set_as_main()?;
         ctx.finalize()?;
         let hash = context_hash(&ctx) ^ crate::rng::fnv(format!("{:?}", ops).as_bytes());
-        Ok(CustomProg { ctx, input_types: base_types(n), ops, hash })
+        Ok(CustomProg { ctx, input_types: base_types(n), ops, out_families, hash })
     })();
     let _ = (scalar_type(BIT), tuple_type(vec![]), vector_type(0, scalar_type(BIT)));
     r.ok()
